@@ -1211,7 +1211,13 @@ func (g *Graph) Reach(q Query) map[*GNode]bool {
 		if !q.NoFlags {
 			v = g.transfer(n, v0)
 		}
-		leave(n, v)
+		seeds := g.seedVals(n, v0, q)
+		if len(seeds) == 1 && seeds[0] == v0 {
+			seeds = []Val{v} // nothing known from the entry: the node's own effect on the empty valuation
+		}
+		for _, sv := range seeds {
+			leave(n, sv)
+		}
 	}
 	for len(work) > 0 {
 		s := work[len(work)-1]
@@ -1328,7 +1334,13 @@ func (g *Graph) ReachVals(q Query) map[*GNode]map[Val]bool {
 		if !q.NoFlags {
 			v = g.transfer(n, v0)
 		}
-		leave(n, v)
+		seeds := g.seedVals(n, v0, q)
+		if len(seeds) == 1 && seeds[0] == v0 {
+			seeds = []Val{v} // nothing known from the entry: the node's own effect on the empty valuation
+		}
+		for _, sv := range seeds {
+			leave(n, sv)
+		}
 	}
 	for len(work) > 0 {
 		s := work[len(work)-1]
